@@ -3,7 +3,7 @@
 From Coq Require Extraction.
 From Coq Require Import ExtrOcamlBasic.
 From Spg.Base Require Import Prelude Utf8 Bytes.
-From Spg.Model Require Import Tables Rand GenM CharSets CharGen Token WordList WordGen.
+From Spg.Model Require Import Tables Rand GenM CharSets CharGen Token WordList WordGen Api.
 
 Definition run_draw (n : N) (src : source) : outcome N * N :=
   run_src (Pick n (fun i => Ret (Done i))) src.
@@ -40,9 +40,13 @@ Definition run_wlgen (tbl : list (bytes * bytes)) (b : budget) (r : wl_recipe) (
 Definition run_new_word_list (tbl : list (bytes * bytes)) (emit : option (list bytes)) (l : list bytes) :=
   new_word_list (title_of tbl) emit l.
 
+Definition run_history (tbl : list (bytes * bytes)) (s : state) (ops : list op) : list result :=
+  run_ops (title_of tbl) default_budget s ops.
+
 Extraction "model.ml"
   run_draw run_src explode
   run_chargen recipe_report char_entropy alphabet_string recipe_count sp_num sp_den char_generate_diag char_entropy_diag
   mkCR mkBudget Z.of_N roundtrip_report tokenize Tok
   run_wlgen run_new_word_list wl_generate_diag cap_of_string mkWLR mkWL
+  run_history mkCO OChar OWL SetChar SetWL Generate Entropy Alphabet SuccessProb
   SFNone SFDigits1 SFDigits2 SFDigitsNoAmbiguous1 SFDigitsNoAmbiguous2 SFSymbols SFDigitsSymbols.
